@@ -9,6 +9,7 @@ import (
 	"fmt"
 	"math"
 	"math/rand"
+	"os"
 	"sort"
 	"strings"
 
@@ -516,6 +517,7 @@ type pendingClaim struct {
 	table string
 	uuid  string
 	index []string
+	src   Row // the values to claim when the row itself is gone by then
 }
 
 func newShadow() *shadow { return &shadow{rows: map[string]map[string]Row{}, next: 1} }
@@ -848,10 +850,16 @@ func genTxn(rng *rand.Rand, ts TxnSchema, sh *shadow, nops int) TxnJ {
 		sh.probes = nil
 	}
 	if sh.pending != nil {
-		if op, ok := g.genPendingClaim(); ok {
-			tail = append(tail, op)
-		}
+		gone := sh.pending.src != nil
+		op, ok := g.genPendingClaim()
 		sh.pending = nil
+		if ok {
+			tail = append(tail, op)
+			if gone && rng.Intn(2) == 0 {
+				t.Ops = append(t.Ops, tail...) // nothing else in the way: the claim is the whole transaction
+				return t
+			}
+		}
 	}
 	k := rng.Intn(36)
 	if rng.Intn(12) == 0 {
@@ -862,6 +870,9 @@ func genTxn(rng *rand.Rand, ts TxnSchema, sh *shadow, nops int) TxnJ {
 	}
 	if g.ts.Spec.Tables[0].Col("wset") != nil && rng.Intn(5) == 0 {
 		k = 34
+	}
+	if g.multiIndexed() && rng.Intn(4) == 0 {
+		k = 17 // tables with several schema indexes: a row can be superseded in one of them only
 	}
 	switch k {
 	case 32:
@@ -886,6 +897,12 @@ func genTxn(rng *rand.Rand, ts TxnSchema, sh *shadow, nops int) TxnJ {
 	case 17, 18:
 		// a row changes its value in one schema index of a table that has several; the next transaction
 		// claims the value it still holds in another one (which must be refused)
+		if rng.Intn(2) == 0 {
+			if ops := g.genReplaceKeep(); ops != nil {
+				t.Ops = append(t.Ops, ops...)
+				return t
+			}
+		}
 		t.Ops = append(t.Ops, g.genOneIndexUpdate()...)
 	case 19, 20:
 		// waits whose selected rows agree on the compared columns, and whose expected rows repeat
@@ -1653,6 +1670,16 @@ func (g *txnGen) genDoubleMutate() []OperationJ {
 	}
 	if len(bounded) > 0 && g.rng.Intn(3) != 0 {
 		x = bounded[g.rng.Intn(len(bounded))]
+		// an empty collection is a case of its own (nothing to collide with): take one when there is one
+		var empty []cand
+		for _, c := range bounded {
+			if v, ok := g.sh.rows[c.t.Name][c.u][c.c.Name]; ok && v != nil && (v.K == 'S' || v.K == 'M') && len(v.S) == 0 && len(v.M) == 0 {
+				empty = append(empty, c)
+			}
+		}
+		if len(empty) > 0 && g.rng.Intn(2) == 0 {
+			x = empty[g.rng.Intn(len(empty))]
+		}
 	}
 	var ops []OperationJ
 	var last *Value
@@ -1672,6 +1699,12 @@ func (g *txnGen) genDoubleMutate() []OperationJ {
 			return VS(atom(x.c.Type.Key))
 		}
 		if x.c.Type.Key == "integer" || x.c.Type.Key == "string" {
+			if g.rng.Intn(2) == 0 {
+				// both in one operation: the second mutation works on what the first one produced, and what
+				// it produced must be the column's own storage, not the operand of the first
+				return []OperationJ{{Op: "mutate", Table: x.t.Name, Mutations: []MutationJ{
+					{Col: x.c.Name, Mutator: "insert", Val: fresh(1)}, {Col: x.c.Name, Mutator: "insert", Val: fresh(2)}}, Where: byUUID(x.u)}}
+			}
 			for i := 1; i <= 2; i++ {
 				ops = append(ops, OperationJ{Op: "mutate", Table: x.t.Name, Mutations: []MutationJ{{Col: x.c.Name, Mutator: "insert", Val: fresh(i)}}, Where: byUUID(x.u)})
 			}
@@ -1808,6 +1841,78 @@ func (g *txnGen) genWeakMinDrop() []OperationJ {
 	return nil
 }
 
+func (g *txnGen) multiIndexed() bool {
+	for _, t := range g.ts.Spec.Tables {
+		if len(t.Indexes) >= 2 && len(g.sh.rows[t.Name]) > 0 {
+			return true
+		}
+	}
+	return false
+}
+
+// genReplaceKeep: in a table with several schema indexes a row is deleted and, in the same transaction, another
+// one is inserted that takes over its values in one index and brings fresh values in the others. The next
+// transaction claims the values the deleted row held in another index: nobody holds them, it must go through.
+func (g *txnGen) genReplaceKeep() []OperationJ {
+	for _, t := range g.ts.Spec.Tables {
+		if len(t.Indexes) < 2 || len(g.sh.rows[t.Name]) == 0 {
+			continue
+		}
+		us := g.sh.uuids(t.Name)
+		u := us[g.rng.Intn(len(us))]
+		src := g.sh.rows[t.Name][u]
+		k := g.rng.Intn(len(t.Indexes))
+		if g.rng.Intn(3) == 0 {
+			k = 0
+		}
+		other := t.Indexes[(k+1)%len(t.Indexes)]
+		row := Row{}
+		for _, ix := range t.Indexes {
+			for _, c := range ix {
+				if t.Col(c).Type.Key == "string" {
+					row[c] = VA(AS(fmt.Sprintf("z%d", g.rng.Intn(100000))))
+				} else {
+					row[c] = VA(AI(int64(200000 + g.rng.Intn(100000))))
+				}
+			}
+		}
+		for _, c := range t.Indexes[k] {
+			if src[c] == nil {
+				return nil
+			}
+			row[c] = nativeToOvsValue(src[c])
+		}
+		same := true
+		for _, c := range other {
+			if src[c] == nil {
+				return nil
+			}
+			if row[c].Canon() != nativeToOvsValue(src[c]).Canon() {
+				same = false
+			}
+		}
+		if same {
+			return nil // overlapping indexes: the new row would hold the other index's values too
+		}
+		keep := Row{}
+		for c, v := range src {
+			keep[c] = v
+		}
+		g.sh.pending = &pendingClaim{table: t.Name, uuid: u, index: other, src: keep}
+		if os.Getenv("VERIF_DEBUG") != "" {
+			fmt.Fprintln(realStderr, "replace-keep", t.Name, k)
+		}
+		ins := OperationJ{Op: "insert", Table: t.Name, Row: row, UUID: g.sh.fresh()}
+		g.inserted[t.Name] = append(g.inserted[t.Name], ins.UUID)
+		del := OperationJ{Op: "delete", Table: t.Name, Where: byUUID(u)}
+		if g.rng.Intn(2) == 0 {
+			return []OperationJ{del, ins}
+		}
+		return []OperationJ{ins, del}
+	}
+	return nil
+}
+
 // genOneIndexUpdate: see genTxn
 func (g *txnGen) genOneIndexUpdate() []OperationJ {
 	for _, t := range g.ts.Spec.Tables {
@@ -1833,7 +1938,7 @@ func (g *txnGen) genOneIndexUpdate() []OperationJ {
 				return nil // overlapping indexes: not this scenario
 			}
 		}
-		g.sh.pending = &pendingClaim{t.Name, u, other}
+		g.sh.pending = &pendingClaim{table: t.Name, uuid: u, index: other}
 		return []OperationJ{{Op: "update", Table: t.Name, Row: row, Where: byUUID(u)}}
 	}
 	return nil
@@ -1952,7 +2057,7 @@ func (g *txnGen) genTupleConfuse() []OperationJ {
 				return op
 			}
 			first := mk("", x)
-			g.sh.pending = &pendingClaim{t.Name, first.UUID, ix}
+			g.sh.pending = &pendingClaim{table: t.Name, uuid: first.UUID, index: ix}
 			return []OperationJ{first, mk(x, "")}
 		}
 	}
@@ -1963,6 +2068,9 @@ func (g *txnGen) genPendingClaim() (OperationJ, bool) {
 	pc := g.sh.pending
 	t := g.ts.Spec.Table(pc.table)
 	src, ok := g.sh.rows[pc.table][pc.uuid]
+	if pc.src != nil {
+		src, ok = pc.src, true
+	}
 	if t == nil || !ok {
 		return OperationJ{}, false
 	}
